@@ -135,9 +135,15 @@ pub enum Expect {
         headers: Vec<(String, String)>,
         secret: String,
         custom: bool,
+        ctor: String,
     },
     /// Any framework-made error (404/405/400...) in [lo, hi].
-    FrameworkErr { lo: u16, hi: u16 },
+    FrameworkErr {
+        lo: u16,
+        hi: u16,
+        /// for a 405: the methods the Allow header(s) must list (sorted)
+        allow: Vec<String>,
+    },
     /// Plain success with given operation (health checks, /ok, /hdr).
     Ok { op: String },
     /// Hostile traffic: `malformed` => any answer must be 4xx/5xx.
